@@ -33,13 +33,13 @@ def sel_case(draw):
     pred, ref = draw(gen.pair(k=4))
     dtype = draw(st.sampled_from(DTYPES + ["bool"]))
     # labels: mostly small, sometimes not representable in the array's dtype (then necessarily absent)
-    lab = st.one_of(st.integers(1, 7), st.integers(1, 7), st.integers(1, 7), st.sampled_from([255, 256, 257, 259, 300, 65535, 65536, 65539, 2**31, 2**32 + 1]))
+    lab = st.one_of(st.integers(1, 7), st.integers(1, 7), st.integers(0, 7), st.sampled_from([255, 256, 257, 259, 300, 65535, 65536, 65539, 2**31, 2**32 + 1]))
     ref_idx = draw(lab)
     kind = draw(st.integers(0, 4))
     if kind <= 1:
         pred_idx = draw(lab)
     elif kind <= 3:
-        pred_idx = draw(st.lists(lab, min_size=1, max_size=4))
+        pred_idx = draw(st.lists(lab, min_size=0, max_size=4))  # the empty list selects nothing
     else:
         # repeated labels around a gap, e.g. [1, 3, 3]: as many entries as a consecutive run would have
         a, g = draw(st.integers(1, 5)), draw(st.integers(2, 3))
@@ -114,9 +114,14 @@ def check(case, stats):
         plist = pred_idx if isinstance(pred_idx, list) else [pred_idx]
         if kind == "rle":
             raise H.HarnessError("rle with selection")
-        R = frozenset(M.instances(ref).get(ref_idx, frozenset()))
-        pi = M.instances(pred)
-        Pset = frozenset().union(*[pi.get(p, frozenset()) for p in plist]) if plist else frozenset()
+        # voxels carrying exactly the given label (label 0 selects the zero voxels, an empty list nothing)
+        def sel(a, labs):
+            m = np.zeros(a.shape, dtype=bool)
+            for l in labs:
+                m |= (a.astype(object) == l) if a.dtype == bool else (a == l) if (not np.issubdtype(a.dtype, np.integer) or np.iinfo(a.dtype).min <= l <= np.iinfo(a.dtype).max) else False
+            return frozenset(tuple(int(i) for i in idx) for idx in zip(*np.nonzero(m)))
+        R = sel(ref, [ref_idx])
+        Pset = sel(pred, plist)
         nR, nP, nI, nU = len(R), len(Pset), len(R & Pset), len(R | Pset)
     else:
         if kind == "rle":
